@@ -209,12 +209,13 @@ class CorpusShufflingTool:
                 cut = numpy.random.uniform(to_split.segment.start + security, to_split.segment.end)
 
 
-                try:
-                    continuum.add(annotator, Segment(cut, to_split.segment.end), to_split.annotation)
-                    continuum.add(annotator, Segment(to_split.segment.start, cut), to_split.annotation)
-                except ValueError:
+                left, right = Segment(to_split.segment.start, cut), Segment(cut, to_split.segment.end)
+                if left.duration == 0.0 or right.duration == 0.0:
+                    # a part would be shorter than the segment precision : the unit is left as it is
                     continuum.add(annotator, to_split.segment, to_split.annotation)
-                    continuum.add(annotator, to_split.segment, to_split.annotation)
+                else:
+                    continuum.add(annotator, right, to_split.annotation)
+                    continuum.add(annotator, left, to_split.annotation)
 
 
     def corpus_shuffle(self,
